@@ -186,7 +186,7 @@ func (t *Transport) encodeToWithContextTakeover(wr io.Writer, bs []byte) (int, e
 	t.writeWindowBufMu.Lock()
 	defer t.writeWindowBufMu.Unlock()
 
-	fwr, err := flate.NewWriterDict(buf, t.compressConfig.Level, t.writeWindowBuf.Bytes())
+	fwr, err := newFlateWriterDict(buf, t.compressConfig.Level, t.writeWindowBuf.Bytes())
 	if err != nil {
 		return 0, err
 	}
@@ -203,6 +203,37 @@ func (t *Transport) encodeToWithContextTakeover(wr io.Writer, bs []byte) (int, e
 
 	n, err := io.Copy(wr, buf)
 	return int(n), err
+}
+
+// flateWindowSize is the DEFLATE history window (RFC 1951): distances never exceed it.
+const flateWindowSize = 32768
+
+// newFlateWriterDict returns a DEFLATE writer whose output can be inflated with dict as preset dictionary.
+//
+// flate.NewWriterDict is not used: when the first block of the stream is emitted as a stored block
+// (incompressible data, short dictionary) it copies the dictionary into that block, so the peer reads
+// dictionary+message instead of the message. Priming the compressor with the dictionary followed by a
+// sync flush, and dropping that output, yields the same history without this defect; the stream stays
+// decodable by flate.NewReaderDict (the wire format is unchanged).
+func newFlateWriterDict(buf *bytes.Buffer, level int, dict []byte) (*flate.Writer, error) {
+	fwr, err := flate.NewWriter(buf, level)
+	if err != nil {
+		return nil, err
+	}
+	if len(dict) > flateWindowSize {
+		dict = dict[len(dict)-flateWindowSize:]
+	}
+	if len(dict) == 0 {
+		return fwr, nil
+	}
+	if _, err := fwr.Write(dict); err != nil {
+		return nil, err
+	}
+	if err := fwr.Flush(); err != nil {
+		return nil, err
+	}
+	buf.Reset()
+	return fwr, nil
 }
 
 func (t *Transport) decodeFromWithCompression(rd io.Reader) (int, []byte, error) {
